@@ -16,7 +16,8 @@ func (md MaxDepth) CheckContainerPreConstraints(r *ChildRequest) (bool, error) {
 func (md MaxDepth) checkPathLen(current *Path, base *Path) bool {
 	depth := 0
 	p := current
-	for p != nil && base != nil && p.Meta != base.Meta {
+	// in a schema with a grouping that uses itself, nodes below the base have the meta of the base
+	for p != nil && base != nil && (p.Meta != base.Meta || p.Len() > base.Len()) {
 		isListItem := meta.IsList(p.Meta) && p.Parent.Meta == p.Meta
 		if !isListItem {
 			// lists have 2 entries in a path, list node and list item node
